@@ -79,6 +79,9 @@ def class_source(cs):
         body = "".join(decl(f, j) for j, f in enumerate(fields))
         allf = cs["all_fields"]
         hm = cs.get("hash_mode") or "full"
+        if hm == "inherit":
+            # hash=False and no __hash__ in the body: the class keeps the hash it inherits
+            return f"@expr_dataclass(hash=False)\nclass {name}({base}):\n{body or '    pass' + chr(10)}"
         if hm == "const":
             tup = ""                    # a legal, maximally coarse hash: one value per class
         elif hm == "first":
@@ -173,7 +176,7 @@ def make_user_classes(specs):
     return out
 
 
-def gen_user_classes(r):
+def gen_user_classes(r, optimized=False):
     specs = []
     n = r.randint(1, 4)
     # now and then every user class of the run spells its fields as "private" names
@@ -183,7 +186,10 @@ def gen_user_classes(r):
     for k in range(n):
         name = f"U{k}"
         kind = r.choice(["dc", "dc", "dc_nohash", "dc_noinit", "legacy_sub", "legacy_sub",
-                         "pure_legacy", "legacy_transform", "dc_derived"])
+                         "pure_legacy", "legacy_transform", "dc_derived"]
+                        # (under -O dataclasses are not frozen: what dataclass() itself does to
+                        # __hash__ then depends on the decorator's arguments)
+                        + (["dc_nohash"] * 3 if optimized else []))
         if kind == "legacy_transform":
             specs.append({"name": name, "kind": kind, "base": "Variable", "fields": [],
                           "all_fields": ["name"]})
@@ -208,6 +214,8 @@ def gen_user_classes(r):
             else:
                 base, basef = None, []
             nf = r.randint(0 if base else 1, 2)
+            if base is None and kind == "dc" and r.random() < 0.1:
+                nf = 0           # a field-less marker class (legacy subclasses may add state)
             fields = [f for f in USER_FIELD_NAMES if f not in basef][:nf]
             allf = basef + fields
             cs = {"name": name, "kind": kind, "base": base, "fields": fields,
@@ -220,7 +228,11 @@ def gen_user_classes(r):
             if kind == "dc" and r.random() < 0.25:
                 cs["leftover"] = r.sample(["eq", "ne", "repr", "hashnone"], r.randint(1, 2))
             if kind == "dc_nohash":
-                cs["hash_mode"] = r.choice(["full", "full", "first", "const"])
+                # (no hash of its own only under a dataclass node: what a class directly under
+                # Expression would inherit is the legacy hash, which stores its cache by plain
+                # assignment and cannot work on a frozen instance)
+                cs["hash_mode"] = r.choice(["full", "full", "first", "const"]
+                                           + (["inherit", "inherit"] if base else []))
             specs.append(cs)
             if kind == "dc":
                 decorated.append((name, allf))
@@ -231,7 +243,8 @@ def gen_user_classes(r):
                 base, basef = r.choice(decorated)
             else:
                 base, basef = r.choice([("Variable", ["name"]), ("Power", ["base", "exponent"]),
-                                        ("CommonSubexpression", ["child", "prefix", "scope"])])
+                                        ("CommonSubexpression", ["child", "prefix", "scope"]),
+                                        ("FunctionSymbol", []), ("Wildcard", [])])
             nf = r.randint(0, 2)
             fields = [f for f in USER_FIELD_NAMES if f not in basef][:nf]
             specs.append({"name": name, "kind": kind, "base": base, "fields": fields,
@@ -472,7 +485,7 @@ def generate(seed, tier):
     r = random.Random(seed)
     optimized = tier.endswith("-O")
     tmode = r.random() < 0.3
-    ucs = gen_user_classes(r) if r.random() < 0.6 else []
+    ucs = gen_user_classes(r, optimized) if r.random() < 0.6 else []
     classes = list(spec.ALL_BUILTIN) + list(GA_FIELDS)
     extra_fields = dict(GA_FIELDS)
     base_kinds = {"Variable": ["s"], "Sum": ["E"], "Power": ["e", "e"],
@@ -692,6 +705,19 @@ def _async_tracer(nth):
     return tracer
 
 
+def _fieldwise_undefined(oa, ob, exc_type):
+    """Does comparing the two objects' fields pairwise (what the statement defines equality
+    by) itself raise exc_type?"""
+    try:
+        for f in util._expr_field_names(oa):
+            bool(getattr(oa, f) == getattr(ob, f))
+    except exc_type:
+        return True
+    except Exception:  # noqa: BLE001
+        return False
+    return False
+
+
 def execute(scenario, open_sigs):
     import copy
     import pickle
@@ -806,6 +832,11 @@ def execute(scenario, open_sigs):
         except InjectedInterrupt:
             raise
         except Exception as e:  # noqa: BLE001
+            if type(oa) is type(ob) and _fieldwise_undefined(oa, ob, type(e)):
+                # the field values themselves cannot be compared (numpy scalar == () raises):
+                # "pairwise-equal fields" is undefined for this pair
+                probe("undefined_field_comparisons")
+                return None
             viol("C01/eq-raised", {"a": a, "b": b, "exc": type(e).__name__,
                                    "canon_a": str(W.canon0[a])[:400],
                                    "canon_b": str(W.canon0[b])[:400]})
